@@ -44,7 +44,11 @@ def gen_name(rng, single_syms=True):
     for _ in range(n - 1):
         if rng.random() < 0.5:
             parts.append(rng.choice(SYMS))
+            if rng.random() < 0.12:
+                parts.append(rng.choice(SYMS))          # two symbols in a row
         parts.append(rng.choice(WORDS))
+    if rng.random() < 0.08:
+        parts.append(rng.choice(SYMS))                  # a name ending in a symbol
     return parts
 
 
@@ -323,7 +327,7 @@ def run(ctx):
         pos_cases.append({'bind': [], 'e': e, 'want': want, 'what': what, 'bound': []})
     # listed findings: the witnesses run on every run
     for parts, text in ((['a', '+', '-', 'b'], 'a+-b + 0'), (['a', '+', '-', 'b'], 'a + - b - 0'), (['a', '.', '.', 'b'], 'a..b + 0'), (['Total', '+'], 'Total+ + 1 - 1'), (['Total', '+'], 'Total+ * 1')):
-        pos_cases.append({'bind': [[parts, 41], [['zz'], 1]], 'e': text, 'want': 41, 'what': 'symbols in a row', 'bound': [parts, ['zz']], 'known': 'symbols-in-a-row'})
+        pos_cases.append({'bind': [[parts, 41], [['zz'], 1]], 'e': text, 'want': 41, 'what': 'symbols in a row', 'bound': [parts, ['zz']]})
     for text, want in (('({vc: 4}).vc * 2', 8), ('{p: {vc: 4}}.p.vc - 1', 3), ('[{vc: 4}][1].vc + 1', 5), ('({vc: 4}).vc', 4), ('({vc: 4}).vc*2', 8)):
         pos_cases.append({'bind': [[['zz'], 1]], 'e': text, 'want': want, 'what': 'member after dot', 'bound': [['zz']], 'known': 'member-name-not-in-scope'})
     pimpl = ctx.run_impl('ast', [{'bind': c['bind'], 'e': c['e'], 'mode': 'expr', 'eval': True} for c in pos_cases])
